@@ -45,12 +45,12 @@ PLANS = {
         drive=True,
     ),
     "C08": dict(check_forms=["div"], drive=True,
-                mc=[dict(model="MC_Rem", quick="MC_Rem_quick.cfg", thorough="MC_Rem_thorough.cfg")]),
+                mcgen=[dict(model="MC_Rem", quick="MC_Rem_quick.cfg", thorough="MC_Rem_thorough.cfg")]),
     "C09": dict(check_forms=["rem"], drive=True,
-                mc=[dict(model="MC_Rem", quick="MC_Rem_quick.cfg", thorough="MC_Rem_thorough.cfg")]),
-    "C10": dict(drive=True, mc=[dict(model="MC_Roots", quick="MC_Roots_quick.cfg", thorough="MC_Roots_thorough.cfg")]),
-    "C11": dict(drive=True, mc=[dict(model="MC_Roots", quick="MC_Roots_quick.cfg", thorough="MC_Roots_thorough.cfg")]),
-    "C12": dict(drive=True, shard=1500, mc=[dict(model="MC_Roots", quick="MC_Roots_quick.cfg", thorough="MC_Roots_thorough.cfg")]),
+                mcgen=[dict(model="MC_Rem", quick="MC_Rem_quick.cfg", thorough="MC_Rem_thorough.cfg")]),
+    "C10": dict(drive=True, mcgen=[dict(model="MC_Roots", quick="MC_Roots_quick.cfg", thorough="MC_Roots_thorough.cfg")]),
+    "C11": dict(drive=True, mcgen=[dict(model="MC_Roots", quick="MC_Roots_quick.cfg", thorough="MC_Roots_thorough.cfg")]),
+    "C12": dict(drive=True, shard=1500, mcgen=[dict(model="MC_Roots", quick="MC_Roots_quick.cfg", thorough="MC_Roots_thorough.cfg")]),
     "C13": dict(drive=True, mc=[dict(model="MC_Exp", quick="MC_Exp.cfg", workers=6)]),
     "C14": dict(drive=True, shard=700, mc=[dict(model="MC_Floats", quick="MC_Floats.cfg")]),
     "C15": dict(drive=True, mc=[dict(model="MC_Floats", quick="MC_Floats.cfg")]),
